@@ -21,7 +21,7 @@ from sfa.report import Ctx
 
 def _single_return_call(f: FuncInfo) -> tp.Optional[ast.Call]:
     '''The call in `return <call>` when the body is (docstring +) one return of a call.'''
-    body = [s for s in f.node.body if not (isinstance(s, ast.Expr) and isinstance(s.value, ast.Constant))]
+    body = [s for s in f.node.body if not (isinstance(s, ast.Expr) and isinstance(s.value, ast.Constant)) and not isinstance(s, ast.Pass)]
     if len(body) == 1 and isinstance(body[0], ast.Return) and isinstance(body[0].value, ast.Call):
         return body[0].value
     return None
@@ -589,7 +589,7 @@ def t6_store(ctx: Ctx) -> None:
 
 
 def _only_raises_not_implemented(f: FuncInfo) -> bool:
-    body = [s for s in f.node.body if not (isinstance(s, ast.Expr) and isinstance(s.value, ast.Constant))]
+    body = [s for s in f.node.body if not (isinstance(s, ast.Expr) and isinstance(s.value, ast.Constant)) and not isinstance(s, ast.Pass)]
     return len(body) == 1 and isinstance(body[0], ast.Raise) and 'NotImplementedError' in unparse(body[0].exc)
 
 
